@@ -15,12 +15,14 @@ namespace c9
         emit_arr(out, v);
         out.tok("VT");
         emit_array_traits(out, v);
+        emit_hook_phase(out, "HK1");
         out.tok("E");
         if constexpr (meta::is_maybe_v<view_t>) {
             if (!nm::has_value(v)) {
                 out.tok("N");
                 out.tok("ET");
                 out.tok("M 1 RN");
+                emit_hook_phase(out, "HK2");
                 return;
             }
             const auto& u = nm::unwrap(v);
@@ -34,6 +36,7 @@ namespace c9
             out.tok("ET");
             emit_array_traits(out, r);
         }
+        emit_hook_phase(out, "HK2");
     }
 } // namespace c9
 #endif
